@@ -29,7 +29,8 @@ impl Files {
 
         for entry in paths
             .into_iter()
-            .map(WalkDir::new)
+            // symbolic links are followed: a linked file or directory counts like the original
+            .map(|path| WalkDir::new(path).follow_links(true))
             .flat_map(WalkDir::sort_by_file_name)
         {
             let entry = entry?;
